@@ -227,6 +227,10 @@ def run(ctx):
     ctx.assumptions = ["the sandbox file system refuses FICLONE (EOPNOTSUPP): `dedupe` must leave every file untouched, which is still a C02 case",
                        "one device: the per-device split of link/dedupe is exercised at API level by engine D only",
                        "temp-file names do not collide with existing names (24 random alphanumerics)"]
+    ctx.trusted += ["coq/driver/drv_X.ml (case parser / printer of the whole-run model)",
+                    "vlib/props/x_common.py: tree generator, ctypes statx (btime), inventories, the Python reading of the generated option "
+                    "sets (`*d*` name patterns, `<root>/**` path patterns, header merge) and the four-clause oracle",
+                    "engine D's and engine A's models (DedupeModel.v, FsModel.v, AtomicModel.v), tied to the code by C08/C04/C05/C18/C20"]
     ctx.use_coq()
     core.build_fclones()
     model = None
